@@ -446,7 +446,8 @@ func CheckC19(e *fw.Env, _ *Lab) {
 		report(fmt.Sprintf("parallel world %d", g), trs[g])
 	}
 	// fresh processes
-	dir, err := os.MkdirTemp("/verif/.work", "c19-")
+	os.MkdirAll(filepath.Join(VerifDir(), ".work"), 0o755)
+	dir, err := os.MkdirTemp(filepath.Join(VerifDir(), ".work"), "c19-")
 	if err != nil {
 		e.Res.Inconc("tempdir: %v", err)
 		return
@@ -477,7 +478,7 @@ func CheckC19(e *fw.Env, _ *Lab) {
 		rr := RunRaceBinary(e.Seed, e.Thorough())
 		switch {
 		case !rr.Ran:
-			e.Res.Fatal("race-detector binary /verif/bin/orbcheck-race is missing (bin/check builds it for C19)")
+			e.Res.Fatal("race-detector binary bin/orbcheck-race is missing (bin/check builds it for C19)")
 		default:
 			for k, v := range rr.Counts {
 				e.Res.CountN("race:"+k, int(v))
